@@ -94,22 +94,15 @@ impl WordEncoder {
     }
 
     pub fn decode_to_socket_addr(&self, words: &FourWordAddress) -> Result<std::net::SocketAddr> {
-        let encoder = FourWordAdaptiveEncoder::new().map_err(|e| {
-            P2PError::Bootstrap(BootstrapError::InvalidData(
-                format!("Encoder init failed: {e}").into(),
-            ))
-        })?;
-        let normalized = words.0.replace(' ', "-");
-        let decoded = encoder.decode(&normalized).map_err(|e| {
-            P2PError::Bootstrap(BootstrapError::InvalidData(
-                format!("Failed to decode four-word address: {e}").into(),
-            ))
-        })?;
-        decoded.parse::<std::net::SocketAddr>().map_err(|_| {
-            P2PError::Bootstrap(BootstrapError::InvalidData(
-                "Decoded address missing port".to_string().into(),
-            ))
-        })
+        // Same decoding as `NetworkAddress::from_four_words`: the codec wants
+        // space-separated words and omits its "no port" marker 65535.
+        crate::address::NetworkAddress::from_four_words(&words.0)
+            .map(|addr| addr.socket_addr())
+            .map_err(|e| {
+                P2PError::Bootstrap(BootstrapError::InvalidData(
+                    format!("Failed to decode four-word address: {e}").into(),
+                ))
+            })
     }
 
     pub fn encode_socket_addr(&self, addr: &std::net::SocketAddr) -> Result<FourWordAddress> {
